@@ -227,3 +227,40 @@ Example C04_nonvacuous_panic :
   c_reg (s_cs _ s 0) = false /\ c_closes (s_cs _ s 0) = 1 /\ s_count _ s = 0%Z /\
   map p_id (s_sent _ s) = [1; 2; 3]%Z.
 Proof. vm_compute. repeat split. Qed.
+
+(* ---- the oracle of the check ----------------------------------------------------------------
+   [ok_C04] (Model/LtsOracle.v) is the boolean function that bin/check applies to
+   (case, observation of the real media.Stream after the case's schedule).  With
+   G = [gap_least pkts], the least G such that every G consecutive published packets contain a
+   key-frame start, it demands of every registered consumer
+       queue length <= max maxq (3 + G) + G + 1
+   (C04_backlog_bound; the join replay of the RTP pack cache holds at most VPS, SPS, PPS and one
+   GOP, C04_join_replay_bounded), and of a consumer scripted to panic in its n-th Consume call
+   that it is never handed more than n packets and that after the n-th its goroutine is on its
+   exit path or finished and it is out of the map (C04_panic_detaches). *)
+From V Require Import LtsOracle LtsOracleProofs.
+
+Theorem C04_gap_least_is_least : forall pkts,
+  gap_ok (gap_least pkts) pkts = true /\ forall G, gap_ok G pkts = true -> gap_least pkts <= G.
+Proof. exact (fun pkts => conj (gap_least_ok pkts) (fun G => gap_least_least G pkts)). Qed.
+Print Assumptions C04_gap_least_is_least.
+
+Theorem C04_join_replay_bounded : forall c : lcase, l_var c = fixed -> forall i G,
+  gap_ok G (l_pkts c) = true -> length (c_prefill (s_cs _ (lrun c) i)) <= 3 + G.
+Proof. exact (fun c H i => proj2 (proj2 (prefill_facts c H i))). Qed.
+Print Assumptions C04_join_replay_bounded.
+
+Theorem C04_model_passes : forall c : lcase,
+  l_var c = fixed -> ok_C04 c (obs_of_state (l_n c) (lrun c)) = true.
+Proof. exact LtsOracleProofs.C04_model_passes. Qed.
+Print Assumptions C04_model_passes.
+
+Theorem C04_oracle_decodes_the_wire : forall n (s : lstate),
+  dec_obs (enc_state n s) = obs_of_state n s.
+Proof. exact dec_enc_obs. Qed.
+Print Assumptions C04_oracle_decodes_the_wire.
+
+Theorem C04_model_passes_on_the_wire : forall v,
+  l_var (dec_lcase v) = fixed -> ok_C04 (dec_lcase v) (dec_obs (lts_run v)) = true.
+Proof. exact (fun v H => proj2 (proj2 (wire_model_passes v H))). Qed.
+Print Assumptions C04_model_passes_on_the_wire.
